@@ -546,7 +546,7 @@ impl<V: Val, S: StratExt<V>> Worker<V, S> {
     /// `Cache::load`: recorded as a read of the container. The value retained inside the cache is
     /// an owner the harness cannot see; it is accounted by address (decremented before the call
     /// that may release it, incremented after the call that retained it).
-    fn do_cache_load(&mut self) {
+    pub(crate) fn do_cache_load(&mut self) {
         use arc_swap::cache::Access as CacheAccess;
         let c = self.pick_cont();
         while self.caches.len() < self.conts.len() {
